@@ -59,6 +59,24 @@ func ruleRawVsCompressed(c *Ctx, r *Report, prefix string) {
 			why = "the two sizes are compared with " + op.String()
 			continue
 		}
+		// the raw form may additionally require that the encoder dictionary still holds the chunk
+		// (Compressed() <= dict.Len(), WR-RAWCOPY): always true once DictCap >= 64 KiB
+		if ucB != rawEdge && rawEdge != nil && len(rawEdge.Instrs) > 0 && len(rawEdge.Succs) == 2 {
+			if iff2, isIf := rawEdge.Instrs[len(rawEdge.Instrs)-1].(*ssa.If); isIf {
+				if bo, isB := iff2.Cond.(*ssa.BinOp); isB {
+					dlen := c.Func("lzma", "encoderDict.Len")
+					isCallOf := func(v ssa.Value, f *ssa.Function) bool {
+						cl, ok := stripConv(v).(*ssa.Call)
+						return ok && f != nil && cl.Call.StaticCallee() == f
+					}
+					if (bo.Op == token.LEQ && isCallOf(bo.X, comp) && isCallOf(bo.Y, dlen)) || (bo.Op == token.GEQ && isCallOf(bo.X, dlen) && isCallOf(bo.Y, comp)) {
+						if rawEdge.Succs[1] == cmpEdge {
+							rawEdge = rawEdge.Succs[0]
+						}
+					}
+				}
+			}
+		}
 		if ucB == rawEdge && ccB == cmpEdge {
 			ok = true
 		} else {
@@ -180,6 +198,7 @@ func init() {
 			ruleBlockWriterHash(c, r, "")
 			ruleLookahead(c, r, "")
 			ruleOpMargin(c, r, "")
+			ruleRawCopy(c, r, "")
 			ruleCtorReopen(c, r, "")
 			ruleLoopAdvanceExact(c, r, "")
 			ruleEncoderDictArgs(c, r, "")
